@@ -754,3 +754,92 @@ pub fn certificates_on_big(case: &MetaCase) -> Result<(usize, usize), Failure> {
 pub fn meta_strategy(tier: Tier) -> BoxedStrategy<MetaCase> {
     Meta.strategy(tier)
 }
+
+
+/// C06 on medium-size frameworks (beyond the brute-force oracle): the same problems through the
+/// embedded backend and through an external solver process must give the same statuses, and every
+/// returned extension must satisfy the polynomial necessary conditions.
+pub fn backends_agree_on_medium(case: &MetaCase, external: &crate::satwrap::Backend, bname: &str, picks: &[u8]) -> Result<(usize, usize), Failure> {
+    let mut c2 = case.clone();
+    c2.blocks.truncate(24);
+    let g = assemble(&c2);
+    if g.n == 0 {
+        return Ok((0, 0));
+    }
+    let adj = Adj::new(&g);
+    let queried: Vec<usize> = {
+        let mut q: Vec<usize> = case.queried.iter().take(3).map(|r| idx(*r, g.n)).collect();
+        q.sort();
+        q.dedup();
+        q
+    };
+    let text = Presented::new(g.clone()).text();
+    let af = Iccma23Reader::default().read(&mut text.as_bytes()).map_err(|e| Failure::new("C06/medium/reader-rejected-generated-file", e.to_string()))?;
+    let mut compared = 0;
+    let problems: Vec<(Q, Sem)> = [Q::SE, Q::DC, Q::DS].iter().flat_map(|q| ALL_SEMS.iter().map(move |s| (*q, *s))).collect();
+    for (k, p) in picks.iter().enumerate() {
+        let (q, sem) = problems[*p as usize % problems.len()];
+        if kind_for(q, sem) == crate::queries::Kind::Gr {
+            continue;
+        }
+        let encs = encodings_for(q, sem);
+        let enc = encs[(case.enc_pick as usize + k) % encs.len()];
+        let enc = if enc == Enc::ExpCo { Enc::Hybrid } else { enc };
+        let sig = format!("C06/medium/{}-{}/{}/embedded-vs-{}", q.name(), sem.name(), enc.name(), bname);
+        let args: Vec<usize> = if q == Q::SE { vec![0] } else { queried.clone() };
+        for a in args {
+            let lab = a + 1;
+            let run = |backend: &crate::satwrap::Backend| -> Result<(Option<bool>, Option<Vec<bool>>), String> {
+                let shared = Shared::new(3_000);
+                guard(|| {
+                    let mut s = SolverObj::new(&af, kind_for(q, sem), enc, satwrap::factory_with(&shared, backend));
+                    let (st, ext) = match q {
+                        Q::SE => (None, s.se()),
+                        Q::DC => {
+                            let (b, c) = s.dc(&[&lab], true);
+                            (Some(b), c)
+                        }
+                        Q::DS => {
+                            let (b, c) = s.ds(&[&lab], true);
+                            (Some(b), c)
+                        }
+                    };
+                    (st, ext.map(|e| {
+                        let mut v = vec![false; g.n];
+                        for m in &e {
+                            if m.label >= 1 && m.label <= g.n {
+                                v[m.label - 1] = true;
+                            }
+                        }
+                        v
+                    }))
+                })
+            };
+            let emb = run(&crate::satwrap::embedded()).map_err(|p| Failure::new(format!("{}/embedded-panic", sig), p))?;
+            let ext = run(external).map_err(|p| Failure::new(format!("{}/external-panic", sig), format!("{}\n{}", p, text)))?;
+            compared += 1;
+            if emb.0 != ext.0 || emb.1.is_some() != ext.1.is_some() {
+                return Err(Failure::new(
+                    format!("{}/answers-differ-between-backends", sig),
+                    format!("argument {}: embedded {:?}/{} external {:?}/{}\n{}", lab, emb.0, emb.1.is_some(), ext.0, ext.1.is_some(), text),
+                ));
+            }
+            for (who, set) in [("embedded", &emb.1), ("external", &ext.1)] {
+                if let Some(set) = set {
+                    let ok = match sem {
+                        Sem::ST => adj.stable(set),
+                        Sem::STG => adj.conflict_free(set),
+                        _ => adj.complete(set),
+                    };
+                    if !ok {
+                        return Err(Failure::new(
+                            format!("{}/{}-set-violates-a-necessary-condition", sig, who),
+                            format!("argument {}: {:?}\n{}", lab, (0..g.n).filter(|i| set[*i]).map(|i| i + 1).collect::<Vec<_>>(), text),
+                        ));
+                    }
+                }
+            }
+        }
+    }
+    Ok((g.n, compared))
+}
